@@ -180,6 +180,9 @@ func C15(ctx *core.Ctx, r *core.Report) {
 	c15Brackets(ctx, r, wv)
 	c15StreamErrors(ctx, r)
 	c15Names(ctx, r)
+	jsonW := scopeFuncs(ctx, "nodeutil", "json_wtr.go")
+	floatTextExact(ctx, r, jsonW, 1)
+	definitionModuleOriginal(ctx, r, jsonW, 3)
 }
 
 // guardSig: a printable signature of the branch conditions dominating a block.
